@@ -13,7 +13,30 @@ def _hist(fn, quick, thorough_n, bound, **kw):
     return run
 
 
+def _prog(fn, quick, thorough_n, bound, **kw):
+    def run(seed, thorough=False):
+        from harness import programs as P
+
+        n = thorough_n if thorough else quick
+        v, cases = getattr(P, fn)(seed, n, **kw)
+        known, unknown = {}, []
+        for x in v:
+            kf = [m for m in x["violations"] if "[KF-" in m]
+            if kf and len(kf) == len(x["violations"]):
+                k = kf[0].split("]")[0].strip("[")
+                known[k] = known.get(k, 0) + 1
+            else:
+                unknown.append(x)
+        return dict(cases=cases, violations=unknown, known=known, bound=bound.format(n=n, seed=seed))
+
+    return run
+
+
 BOUNDED = {
+    "programs": _prog("check_equivalence", 250, 4000, "{n} random describing functions (<= 5 statements, nesting depth <= 2, all argument / flag / return forms of the supported fragment), seed {seed}: DAG and AsyncDAG value and per-call-site execution counts against ONE interpreter run with the plain callables; re-run after config_from_dict and a second call"),
+    "programs_flat": _prog("check_equivalence", 150, 2000, "{n} random flat describing functions (no nesting), seed {seed}", nested=False),
+    "reference_matrix": _prog("check_reference_matrix", 0, 0, "exhaustive matrix: reference kind (positional, keyword, activation) x source (parameter, result, indexed / unpacked / nested-key result) x nesting depth 0..2 x 3 inputs (216 programs)"),
+    "build_validation": _prog("check_build_validation", 60, 400, "{n} random (illegal or legal setup/debug dependency) x (positional first, positional after a constant, keyword, activation) builds, seed {seed}"),
     "selection": _hist("check_selection", 250, 3000, "{n} random (DAG <= 4 nodes, R, X, T) selections, seed {seed}: executor graph, executed set, returned values, ValueError cases against the documented closure"),
     "selection_debug": _hist("check_selection", 250, 3000, "{n} random selections on DAGs with debug nodes, both settings of RUN_DEBUG_NODES, seed {seed}", debug=True),
     "setup_histories": _hist("check_setup_histories", 200, 2500, "{n} random histories (length 5) over call/executor/setup/setup(selection)/deepcopy on DAGs <= 4 nodes with setup nodes, seed {seed}"),
